@@ -109,9 +109,9 @@ int byte_array::cmp(const byte_array &other) const
     if (p == other.p) {
         return 0;
     } else if (!p) {
-        return other.p->size > 0 ? 1 : 0;
+        return other.p->size > 0 ? -1 : 0;
     } else if (!other.p) {
-        return p->size > 0 ? -1 : 0;
+        return p->size > 0 ? 1 : 0;
     } else {
         size_t size = p->size;
         if (size > other.p->size)
